@@ -27,6 +27,7 @@ type retRec struct {
 	reach   *Term
 	results []Val
 	st      *State
+	blk     *ssa.BasicBlock
 }
 
 type Frame struct {
@@ -62,6 +63,8 @@ type Frame struct {
 	inUnrolled  map[*ssa.BasicBlock]*ssa.BasicBlock
 	entrySt     *State
 	entryReach  *Term
+	parent   *Frame // inlining frame this one was entered from
+	lastCalled map[string]*Term // callee (short name) -> condition under which it has been called so far
 	lastRets map[string][]Val
 	lastRetNames map[string]map[string]int
 }
@@ -577,6 +580,9 @@ func (fr *Frame) execBlock(blk *ssa.BasicBlock) {
 		}
 	}
 	fr.st, fr.reach = inSt, inReach
+	if fr.top {
+		fr.cx.curBlk = blk
+	}
 	// source-level names: what the immediate dominator knew, plus this block's phis
 	fr.localVars = map[string]Val{}
 	if idom := blk.Idom(); idom != nil {
@@ -757,7 +763,7 @@ func (fr *Frame) specEnv(cur *State) *SpecEnv {
 			vars[k] = v
 		}
 	}
-	return &SpecEnv{cx: fr.cx, pkg: tp, vars: vars, cur: cur, old: fr.entry, ranges: fr.ranges}
+	return &SpecEnv{cx: fr.cx, pkg: tp, vars: vars, cur: cur, old: fr.entry, ranges: fr.ranges, rets: fr.lastRets, retNames: fr.lastRetNames, called: fr.lastCalled}
 }
 
 // enterLoop handles a loop header: checks the invariant on entry, havocs the
